@@ -69,38 +69,39 @@ Ltac vm := vm_compute; reflexivity.
 Ltac respell := unfold respelling; split; [vm | split; vm].
 Ltac shapes_differ := apply parse_sk_neq; vm_compute; discriminate.
 
-(* ---- F4: closing keywords of Where / If / For are compared with single-blank spellings ------ *)
-Theorem C11_order_by_ws_refuted :
-  respelling w_order_by_a w_order_by_b /\ parse_shapes w_order_by_a <> parse_shapes w_order_by_b.
-Proof. split; [respell | shapes_differ]. Qed.
+(* ---- F4 (FIXED in /repo: Token.normalized collapses the white space inside compound keywords): the former
+        refutation witnesses now parse to the same shapes ------------------------------------------- *)
+Example C11_order_by_ws_same :
+  respelling w_order_by_a w_order_by_b /\ parse_shapes w_order_by_a = parse_shapes w_order_by_b.
+Proof. split; [respell | vm]. Qed.
 
-Theorem C11_union_all_ws_refuted :
-  respelling w_union_all_a w_union_all_b /\ parse_shapes w_union_all_a <> parse_shapes w_union_all_b.
-Proof. split; [respell | shapes_differ]. Qed.
+Example C11_union_all_ws_same :
+  respelling w_union_all_a w_union_all_b /\ parse_shapes w_union_all_a = parse_shapes w_union_all_b.
+Proof. split; [respell | vm]. Qed.
 
-Theorem C11_end_if_ws_refuted :
-  respelling w_end_if_a w_end_if_b /\ parse_shapes w_end_if_a <> parse_shapes w_end_if_b.
-Proof. split; [respell | shapes_differ]. Qed.
+Example C11_end_if_ws_same :
+  respelling w_end_if_a w_end_if_b /\ parse_shapes w_end_if_a = parse_shapes w_end_if_b.
+Proof. split; [respell | vm]. Qed.
 
-Theorem C11_end_loop_ws_refuted :
-  respelling w_end_loop_a w_end_loop_b /\ parse_shapes w_end_loop_a <> parse_shapes w_end_loop_b.
-Proof. split; [respell | shapes_differ]. Qed.
+Example C11_end_loop_ws_same :
+  respelling w_end_loop_a w_end_loop_b /\ parse_shapes w_end_loop_a = parse_shapes w_end_loop_b.
+Proof. split; [respell | vm]. Qed.
 
-(* ---- F5: group_functions tests value == 'AS' case-sensitively ---------------------------------- *)
-Theorem C11_as_case_refuted :
-  respelling w_as_case_a w_as_case_b /\ parse_shapes w_as_case_a <> parse_shapes w_as_case_b.
-Proof. split; [respell | shapes_differ]. Qed.
+(* ---- F5 (FIXED in /repo): group_functions tested value == 'AS' case-sensitively ---------------------- *)
+Example C11_as_case_same :
+  respelling w_as_case_a w_as_case_b /\ parse_shapes w_as_case_a = parse_shapes w_as_case_b.
+Proof. split; [respell | vm]. Qed.
 
-(* ---- the splitter: GO is recognised in upper case only ----------------------------------------- *)
-Theorem C11_go_case_refuted :
+(* ---- the splitter (FIXED in /repo): GO was recognised in upper case only ---------------------------- *)
+Example C11_go_case_same :
   respelling w_go_case_a w_go_case_b
-  /\ length (split_sigs w_go_case_a) = 2 /\ length (split_sigs w_go_case_b) = 1.
+  /\ length (split_sigs w_go_case_a) = 2 /\ split_sigs w_go_case_a = split_sigs w_go_case_b.
 Proof. split; [respell | split; vm]. Qed.
 
 (* ---- the splitter: END IF / END FOR / END WHILE lower the level only when spelled with one blank *)
-Theorem C11_split_end_if_ws_refuted :
+Example C11_split_end_if_ws_same :
   respelling w_split_end_if_a w_split_end_if_b
-  /\ length (split_sigs w_split_end_if_a) = 2 /\ length (split_sigs w_split_end_if_b) = 1.
+  /\ length (split_sigs w_split_end_if_a) = 2 /\ split_sigs w_split_end_if_a = split_sigs w_split_end_if_b.
 Proof. split; [respell | split; vm]. Qed.
 
 (* ---- the splitter: a single-line comment after a terminator belongs to the statement before it
@@ -133,7 +134,4 @@ Example C11_pos_parse :
   skelb (lexed w_pos2_a) (lexed w_pos2_b) = true /\ parse_shapes w_pos2_a = parse_shapes w_pos2_b.
 Proof. split; vm. Qed.
 
-Print Assumptions C11_order_by_ws_refuted.
-Print Assumptions C11_as_case_refuted.
-Print Assumptions C11_go_case_refuted.
 Print Assumptions C11_comment_after_semi_refuted.
